@@ -96,6 +96,9 @@ def run(ctx):
     for i in range(n_rand):
         tx = enc.random_tx(ctx.rng, n_in=ctx.rng.randint(1, 20 if ctx.rng.random() < 0.1 else 4),
                            n_out=ctx.rng.randint(0, 20 if ctx.rng.random() < 0.1 else 3), big=True)
+        if i % 100 == 7:
+            # scale: counts that need a three-byte varint, scripts beyond 64 KiB in total
+            tx = enc.random_tx(ctx.rng, n_in=ctx.rng.choice([252, 253, 300, 700]), n_out=ctx.rng.choice([0, 1, 252, 253, 300]))
         for inp in tx["ins"]:
             if ctx.rng.random() < 0.3:
                 inp["ops"] = enc.random_ops(ctx.rng, ctx.rng.randint(1, 8), big=True)
